@@ -32,6 +32,28 @@ class C04Episode(Episode):
                 self.nostop.add(m)
 
     def check_quiet(self):
+        # the views are collected with several requests; with a step cost
+        # virtual time passes meanwhile and a periodic check (or a death) may
+        # fall in between: then the views are not one quiescent point
+        w = self.world
+        k = w.kernel
+        for attempt in range(4):
+            mark = (w.checks_started, w.checks_done, len(k.spawns),
+                    len(k.signals), len(self.death_marks))
+            n0 = len(self.violations)
+            seen0 = set(self._seen)
+            self.check_views()
+            if mark == (w.checks_started, w.checks_done, len(k.spawns),
+                        len(k.signals), len(self.death_marks)):
+                return
+            # interrupted: forget what was concluded, settle, try again
+            del self.violations[n0:]
+            self._seen = seen0
+            self.probes['views_interrupted'] += 1
+            if not w.settle(extra_checks=0) or self.stopped():
+                return
+
+    def check_views(self):
         w = self.world
         k = w.kernel
         me = k.getpid_value
